@@ -400,6 +400,15 @@ class History:
             elif k == "twist":
                 spec["twist"] = [0.0, 8.0, -12.0][a["j"] % 3]
                 obj.weapon.twist = D.Inch(spec["twist"])
+            elif k == "powder":
+                # powder sensitivity switched on with a modifier of any size (a fraction per 15 C; values above 1 are legal
+                # numbers too); the baseline sits within a few degrees of the air so that the launch speed stays sane
+                mod = [0.01, -0.03, 1.2, -1.01, 1.01, 2.5][a["j"] % 6]
+                t0 = (obj.atmo.temperature >> pb.Temperature.Celsius) + (4.0 * a["x"] - 2.0)
+                spec["powder"] = {"t0_c": t0, "mod": mod}
+                obj.ammo.powder_temp = pb.Temperature.Celsius(t0)
+                obj.ammo.temp_modifier = mod
+                obj.ammo.use_powder_sensitivity = True
         self._invariants(r, name)
         return r
 
@@ -434,7 +443,7 @@ H_RULES = {
     "danger": st.fixed_dictionaries({"c": _c, "s": _s, "R": st.floats(200.0, 900.0), "at": st.floats(0.1, 0.9), "h": st.floats(1.0, 60.0)}),
     "construct_unrelated": st.fixed_dictionaries({"s": _s, "k": st.integers(0, 35)}),
     "repeat": st.just({}),
-    "edit": st.fixed_dictionaries({"s": _s, "what": st.sampled_from(["bc", "cd", "wind", "humidity", "mv", "look", "twist"]),
+    "edit": st.fixed_dictionaries({"s": _s, "what": st.sampled_from(["bc", "cd", "wind", "humidity", "mv", "look", "twist", "powder"]),
                                    "x": st.floats(0.0, 1.0), "j": st.integers(0, 80)}),
 }
 
